@@ -183,7 +183,7 @@ def run_shard(shard, tier):
                     acc.notes.append(f"declaration rejected: {base} {tags} Options({cexpr}): {type(e).__name__}: {short(e, 80)}")
                 continue
             ci_flag = bool(copts.get("case_insensitive"))
-            for items in M.inputs_for(fields, ci_flag, tier):
+            for items in M.inputs_for(fields, ci_flag, tier, gen="alias_from_generator" in copts):
                 one_case(acc, base, tags, fields, obj, src, cexpr, rexpr, items)
         try:
             from utype.parser import base as _pb
@@ -294,7 +294,8 @@ def one_case(acc, base, tags, fields, obj, src, cexpr, rexpr, items):
 
 
 def c05_owner(key, fields, cexpr):
-    f = M._field_key_owner(key, fields, {"case_insensitive": "case_insensitive=True" in cexpr})
+    f = M._field_key_owner(key, fields, {"case_insensitive": "case_insensitive=True" in cexpr,
+                                         "alias_from_generator": "alias_from_generator" in cexpr})
     return f.name if f else ("?", key)
 
 
